@@ -5411,6 +5411,24 @@ class FlowIRConcrete(object):
             )
             platform_stage_blueprint = self.get_platform_stage_blueprint(stage_index, platform)
 
+            # VV: The platform global blueprint overrides the default stage blueprint (see get_component_configuration).
+            #     The instance only has the `default` platform, where a stage blueprint overrides the global one: drop
+            #     the options of the default stage blueprint that the platform global blueprint defines (same as for
+            #     the stage variables above)
+            if platform != FlowIR.LabelDefault:
+                def drop_overridden(blueprint, overriding):
+                    for key in list(blueprint):
+                        if key not in overriding:
+                            continue
+                        if isinstance(blueprint[key], dict) and isinstance(overriding[key], dict):
+                            drop_overridden(blueprint[key], overriding[key])
+                            if not blueprint[key]:
+                                del blueprint[key]
+                        else:
+                            del blueprint[key]
+
+                drop_overridden(global_stage_blueprint, self.get_platform_blueprint(platform))
+
             stage_blueprint = FlowIR.override_object(global_stage_blueprint, platform_stage_blueprint)
 
             context = global_variables.copy()
